@@ -1888,9 +1888,9 @@ class Compartment(CompartmentBase):
         >>> comp.subs({"AMT": "DOSE"})
         Compartment(CENTRAL, amount=A_CENTRAL(t), doses=Bolus(DOSE, admid=1))
         """
-        if self.doses:
+        if self._doses:
             new_doses = tuple()
-            for d in self.doses:
+            for d in self._doses:
                 new_doses = new_doses + (d.subs(substitutions),)
         else:
             new_doses = tuple()
